@@ -78,6 +78,7 @@ Proof.
   - simpl. rewrite (reset_first_spec inc ttl now _ H1 H2 Hn). simpl.
     unfold flush_entry. rewrite Ef. simpl.
     assert (map (fun e : tentry => e) b = b) as -> by apply map_id.
+    assert (filter (fun _ : tentry => false) b = []) as -> by (clear; induction b; simpl; auto).
     destruct (replace_first _ _ _); reflexivity.
 Qed.
 
@@ -87,40 +88,53 @@ Qed.
 Lemma flush_entry_no_bit inc now e : i_flush inc = false -> flush_entry inc now e = e.
 Proof. intros H. unfold flush_entry. rewrite H. reflexivity. Qed.
 
+Lemma flushable_true_inv inc now (e : tentry) :
+  flushable inc now e = true ->
+  i_class inc = i_class (c_id e) /\ i_type inc = i_type (c_id e) /\
+  t_created (c_t e) + 1000 < now /\ now + 1000 < t_expires (c_t e) /\
+  (((i_type inc = 1 \/ i_type inc = 28) /\ both_addr (c_id e) inc = true) -> i_if (c_id e) = i_if inc).
+Proof.
+  unfold flushable. rewrite !andb_true_iff, !N.eqb_eq, !N.ltb_lt.
+  intros ((((H1 & H2) & H3) & H4) & H5). repeat split; auto.
+  intros [Ht Hb]. rewrite Hb in H5.
+  assert ((i_type inc =? 1) || (i_type inc =? 28) = true) as E.
+  { destruct Ht as [-> | ->]; reflexivity. }
+  rewrite E in H5. simpl in H5. apply N.eqb_eq. exact H5.
+Qed.
+
+Lemma flush_entry_not_flushable inc now e : flushable inc now e = false -> flush_entry inc now e = e.
+Proof. intros H. unfold flush_entry. rewrite H, andb_false_r. reflexivity. Qed.
+
 (* records of the same burst (not more than one second old) are kept *)
 Lemma flush_entry_same_burst inc now (e : tentry) :
   now <= t_created (c_t e) + 1000 -> flush_entry inc now e = e.
 Proof.
-  intros H. unfold flush_entry, flushable.
-  assert (t_created (c_t e) + 1000 <? now = false) as -> by (apply N.ltb_ge; exact H).
-  rewrite !andb_false_r. simpl. rewrite andb_false_r. reflexivity.
+  intros H. apply flush_entry_not_flushable. destruct (flushable inc now e) eqn:E; [|reflexivity].
+  apply flushable_true_inv in E. lia.
 Qed.
 
 (* records that expire within the next second anyway are left alone *)
 Lemma flush_entry_expiring inc now (e : tentry) :
   t_expires (c_t e) <= now + 1000 -> flush_entry inc now e = e.
 Proof.
-  intros H. unfold flush_entry, flushable.
-  assert (now + 1000 <? t_expires (c_t e) = false) as -> by (apply N.ltb_ge; exact H).
-  rewrite !andb_false_r. simpl. rewrite andb_false_r. reflexivity.
+  intros H. apply flush_entry_not_flushable. destruct (flushable inc now e) eqn:E; [|reflexivity].
+  apply flushable_true_inv in E. lia.
 Qed.
 
 (* another class or type is left alone; an address learned on another interface too *)
 Lemma flush_entry_other_class_type inc now (e : tentry) :
   i_class inc <> i_class (c_id e) \/ i_type inc <> i_type (c_id e) -> flush_entry inc now e = e.
 Proof.
-  intros H. unfold flush_entry, flushable.
-  destruct H as [H|H]; apply N.eqb_neq in H; rewrite H; simpl; rewrite ?andb_false_r; reflexivity.
+  intros H. apply flush_entry_not_flushable. destruct (flushable inc now e) eqn:E; [|reflexivity].
+  apply flushable_true_inv in E. destruct E as (E1 & E2 & _). destruct H; contradiction.
 Qed.
 
 Lemma flush_entry_other_interface inc now (e : tentry) :
   (i_type inc = 1 \/ i_type inc = 28) -> both_addr (c_id e) inc = true -> i_if (c_id e) <> i_if inc ->
   flush_entry inc now e = e.
 Proof.
-  intros Ht Hb Hi. unfold flush_entry, flushable. rewrite Hb.
-  assert ((i_type inc =? 1) || (i_type inc =? 28) = true) as ->.
-  { destruct Ht as [-> | ->]; reflexivity. }
-  simpl. apply N.eqb_neq in Hi. rewrite Hi. rewrite !andb_false_r. reflexivity.
+  intros Ht Hb Hi. apply flush_entry_not_flushable. destruct (flushable inc now e) eqn:E; [|reflexivity].
+  apply flushable_true_inv in E. destruct E as (_ & _ & _ & _ & E). exfalso. apply Hi. apply E. auto.
 Qed.
 
 (* every record that meets all conditions expires one second later, nothing else changes *)
